@@ -280,6 +280,7 @@ func runInBubble(tp *core.Tape, e *core.Env, sc *Scenario, replicaSel []int, out
 		}
 	}
 	shards := map[string]*scriptShard{}
+	subRand := map[string]*core.Rand{}
 	var mgrs []*manager
 	rm := &replicas{}
 	for _, ri := range replicaSel {
@@ -295,10 +296,19 @@ func runInBubble(tp *core.Tape, e *core.Env, sc *Scenario, replicaSel []int, out
 			shards[host] = ss
 			net.Handle(host, ss)
 		}
-		// the permutation salt is (re)drawn when a replica's shards are listed
-		rid := ri
-		m.onList = func() {
-			_ = rid
+		// per-replica schedule: salt and math/rand are re-seeded when this
+		// replica's shards are listed (replicas are coordinated one after another)
+		if sc.ReplicaSeeds != nil {
+			seed := sc.ReplicaSeeds[ri]
+			m.onList = func() {
+				if seed == 0 {
+					verifhook.SetSalt(0)
+				} else {
+					verifhook.SetSalt(seed | 1<<40)
+				}
+				rand.Seed(int64(seed))
+			}
+			subRand[fmt.Sprintf("r%d", ri)] = core.NewRand(seed)
 		}
 		mgrs = append(mgrs, m)
 		rm.ms = append(rm.ms, m)
@@ -380,7 +390,12 @@ func runInBubble(tp *core.Tape, e *core.Env, sc *Scenario, replicaSel []int, out
 			e.Undecided("cycle engine: step cap reached")
 			break
 		}
-		c := pend[tp.Choose("release", len(pend))]
+		var c *simnet.Call
+		if sr := subRand[strings.SplitN(pend[0].Host, "-", 2)[0]]; sr != nil {
+			c = pend[int(sr.Uint64()%uint64(len(pend)))]
+		} else {
+			c = pend[tp.Choose("release", len(pend))]
+		}
 		v := simnet.Deliver
 		if ss := shards[c.Host]; ss != nil {
 			v = ss.verdict(c)
